@@ -34,7 +34,10 @@ func VerifCrashFlush() {
 
 	path := symapi.TempPath("users.json")
 	old := []byte("[{\"name\":\"previous-table\"}]")
-	symapi.SetFile(path, old)
+	existed := symapi.Bool("previousFileExists")
+	if existed {
+		symapi.SetFile(path, old)
+	} // else: the very first flush; the previous state is "no file", which a restart treats as an empty table
 
 	verifhook.CrashAt = verifCrashPoints[symapi.Choose("crashAt", len(verifCrashPoints))]
 	crashed := false
@@ -52,10 +55,14 @@ func VerifCrashFlush() {
 	}()
 	verifhook.CrashAt = ""
 	img, exists := symapi.DurableFile(path)
-	symapi.Assert(exists, "file-still-exists-after-crash")
-	symapi.Assert(verifBytesEq(img, old) || verifBytesEq(img, newc), "file-is-complete-old-or-complete-new-after-crash")
+	if existed {
+		symapi.Assert(exists, "file-still-exists-after-crash")
+		symapi.Assert(verifBytesEq(img, old) || verifBytesEq(img, newc), "file-is-complete-old-or-complete-new-after-crash")
+	} else {
+		symapi.Assert(!exists || verifBytesEq(img, newc), "first-flush-leaves-no-file-or-the-complete-new-one")
+	}
 	if !crashed {
-		symapi.Assert(verifBytesEq(img, newc), "uninterrupted-flush-writes-new-table")
+		symapi.Assert(exists && verifBytesEq(img, newc), "uninterrupted-flush-writes-new-table")
 		symapi.Reach("completed")
 	} else {
 		symapi.Reach("crashed")
